@@ -28,7 +28,7 @@ PROPS = {
                 rule="one forged authenticated field per run; oracle: the consumer returns Err; distinct by (n, phase, field, role)"),
     "C04": dict(modules=["PolytuneModel.Thm.C04", "PolytuneModel.Thm.C04laand", "PolytuneModel.Thm.Sites", "PolytuneModel.Thm.C04kos"], theorems=["PolytuneModel.Kos.C04_kos_check_exact", "PolytuneModel.Kos.C04_kos_wrong_t_rejected", "PolytuneModel.Kos.C04_kos_detect_or_extract", "PolytuneModel.C04_check_sites_present", "PolytuneModel.C04_laand_check_value", "PolytuneModel.C04_laand_zero", "PolytuneModel.C04_laand_detect", "PolytuneModel.C04.C04_cex_cm_unchecked", "PolytuneModel.C04.C04_dm_bound", "PolytuneModel.C04.C04_open_is_committed", "PolytuneModel.C04.C04_cex_challenge_predetermined"], drive="C04", also=["C04p", "C04m"], cases=dict(quick=30, thorough=200),
                 rule="one flipped payload bit per preprocessing message (18 phases x occurrence x recipients x n), commit-before-reveal under seeded schedules, challenge predictor from wire openings vs probes; distinct by (n, phase, occurrence) / schedule"),
-    "C05": dict(modules=["PolytuneModel.Thm.C05"], theorems=["PolytuneModel.C05_non_output_silent", "PolytuneModel.C05_output_party_messages"], drive="C09", cases=dict(quick=40, thorough=400),
+    "C05": dict(modules=["PolytuneModel.Thm.C05", "PolytuneModel.Thm.C05msgs"], theorems=["PolytuneModel.OnlineMsgs.C05_out_shares_recipients", "PolytuneModel.OnlineMsgs.C05_lambda_recipients", "PolytuneModel.OnlineMsgs.C05_slots_are_output_regs", "PolytuneModel.C05_non_output_silent", "PolytuneModel.C05_output_party_messages"], drive="C09", also=["C01m"], cases=dict(quick=40, thorough=400),
                 rule="recorded messages per ordered pair vs model pattern; nothing to a non-output party after input processing; distinct by (circuit, p_eval, p_out)"),
     "C06": dict(modules=["PolytuneModel.Thm.C06C07"], theorems=["PolytuneModel.C06_mask_bijective", "PolytuneModel.C06_balanced_count"], drive="C06", only="C06", cases=dict(quick=400, thorough=4000),
                 rule="repeated honest executions with taps; balance of revealed^others for input 0 and 1 (6 sigma), fresh delta and mask vector per party and run, 128-bit canary; distinct by run"),
